@@ -987,6 +987,8 @@ class Interp:
                     ok = False
             else:
                 deps |= kv.deps | vv.deps
+        if {"bus", "branch", "gen", "baseMVA"} <= set(k for k in d if isinstance(k, str)):
+            return self.ppc_av("ppc")   # the literal that creates a ppc structure
         return AV(frozenset(deps), "dict", d)
 
     def e_JoinedStr(self, node, fr):
